@@ -381,6 +381,16 @@ def flag_readers() -> list[tuple[str, list[str]]]:
     return [(f, sorted(readers[f])) for f in flags]
 
 
+def dns_ttl_fallback() -> str:
+    from kskm.common.config import KSKMConfig
+
+    try:
+        c = KSKMConfig.from_dict({"ksk_policy": {}, "request_policy": {"dns_ttl": 0}})
+    except KeyError:
+        return "none"
+    return f"some {lint(c.request_policy.dns_ttl)}"
+
+
 def section() -> list[str]:
     from kskm.common.config import KSKMConfig
 
@@ -405,6 +415,9 @@ def section() -> list[str]:
     out.append("def flagReaders : List (String × List String) := [")
     out.append(",\n".join(f"  ({lstr(f)}, [{', '.join(lstr(x) for x in fs)}])" for f, fs in flag_readers()))
     out.append("]")
+    out.append("/-- behaviour switch (F15), by execution: KSKMConfig.from_dict({ksk_policy: {}, request_policy: {dns_ttl: 0}}) —")
+    out.append("    none: KeyError 'ttl'; some t: loads with request_policy.dns_ttl = t -/")
+    out.append(f"def dnsTtlFallback : Option Int := {dns_ttl_fallback()}")
     obs = observe_exit_statuses()
     out.append("/-- exit status of the real ksrsigner.main() (subprocess) per loader outcome, observed now -/")
     out.append("def exitStatusObserved : List (String × Int) := [" + ", ".join(f"({lstr(k)}, {lint(v)})" for k, v in obs) + "]")
